@@ -131,7 +131,9 @@ pub fn inject(w: &mut World, ctx: &mut Ctx, victim: usize) -> Outcome {
         if reaches_state {
             ctx.label("inject_reached_state");
         }
-        let r = w.receiver(d).unwrap();
+        let Some(r) = w.receiver(d) else {
+            return Err(Fail::new("connection_vanished", "the connection a packet was handed to is gone from the server's table right after the call (neither processed nor left disconnected with a reason)"));
+        };
         if r.is_disconnected() {
             ctx.label("victim_disconnected");
             if r.disconnect_reason().is_none() {
@@ -267,7 +269,7 @@ impl Property for C06 {
         "exploration"
     }
     fn rule(&self) -> String {
-        "A case = live renet server with a victim and a bystander connection (and their clients) running generated honest traffic under faults, interleaved with injections into either endpoint of the victim connection. Injected bytes: field-targeted packets from the harness's own raw writer (every kind; sequence / message id / slice index / slice count / declared length at 0, 1, cursor+-1, count-1, count, count+1, 10^6, 10^6+1, 2^30, 2^62-1; payload 0/1/1199/1200/1201; slices aimed at a message in reassembly with a contradicting count or an index beyond it; ack packets with reversed/overlapping/huge/10^4 ranges), mutations/truncations/splices of genuine packets just captured, raw bytes; and bursts of 60-180 well-formed empty packets whose sequence numbers are pairwise non-adjacent (ascending / descending / rotated, steps 2 .. 2^31), after which the endpoint must still produce its packets. Enumerated on a scripted session with reassemblies in progress on three channels: every truncation of, and every value of each of the first 24 bytes of, a genuine packet of every kind. Oracles: no call unwinds (overflow checks on); a disconnected endpoint reports a reason; all later calls on the victim and on the bystander return normally; after every call 0 <= used <= max on every receive and send channel of both connections; the bystander keeps the C01/C02/C03 content oracles, is never disconnected and gets everything within the liveness bound. Non-trivial: an injection that parses and reaches a channel holding buffered or partially reassembled data. Distinct = hash of the decoded operation trace.".into()
+        "A case = live renet server with a victim and a bystander connection (and their clients) running generated honest traffic under faults, interleaved with injections into either endpoint of the victim connection. Injected bytes: field-targeted packets from the harness's own raw writer (every kind; sequence / message id / slice index / slice count / declared length at 0, 1, cursor+-1, count-1, count, count+1, 10^6, 10^6+1, 2^30, 2^62-1; payload 0/1/1199/1200/1201 and 1300 .. 65 000 bytes (what a UDP datagram can carry); slices aimed at a message in reassembly with a contradicting count or an index beyond it; ack packets with reversed/overlapping/huge/10^4 ranges), mutations/truncations/splices of genuine packets just captured, raw bytes; and bursts of 60-180 well-formed empty packets whose sequence numbers are pairwise non-adjacent (ascending / descending / rotated, steps 2 .. 2^31), after which the endpoint must still produce its packets. Enumerated on a scripted session with reassemblies in progress on three channels: every truncation of, and every value of each of the first 24 bytes of, a genuine packet of every kind. Oracles: no call unwinds (overflow checks on); a disconnected endpoint reports a reason; all later calls on the victim and on the bystander return normally; after every call 0 <= used <= max on every receive and send channel of both connections; the bystander keeps the C01/C02/C03 content oracles, is never disconnected and gets everything within the liveness bound. Non-trivial: an injection that parses and reaches a channel holding buffered or partially reassembled data. Distinct = hash of the decoded operation trace.".into()
     }
     fn assumptions(&self) -> Vec<String> {
         vec!["channel ids used by the application exist (the API documents a panic otherwise)".into(), "message contents on the victim connection are not judged: at this layer whoever can inject packets is the peer".into()]
